@@ -47,6 +47,21 @@ def _behaviours(ctx, num, depth):
     return wd
 
 
+RULE = ("TLC explores the reference hierarchy VFSDir.tla exhaustively for small universes (kernel-facing calls, bulk calls, "
+        "case-insensitive names with renames into the own subtree, Listing process with resumable cookie) and checks the C13 "
+        "invariants and action properties. The real NewInMemoryPrepopulatedDirectory (real pool-backed file allocator, symlink "
+        "factory, FUSE- and NFS-style handle allocators, both normalizers, hidden-files matcher) is driven by seeded random "
+        "histories, by an enumeration of all single calls and pairs of calls from four seed states, and by replaying behaviours "
+        "generated from the specification; every call is logged with status, reply and the projection of all known directories "
+        "(public interface + state hook); TLC computes the set of outcomes the reference permits and judges status, resulting "
+        "contents, cookies, change counters, ChangeInfo, listings and link counts.")
+
+
+def _finish(ctx, extra):
+    return vlib.finish(ctx, rule=RULE, explanation="reference-model conformance of in_memory_prepopulated_directory.go",
+                       exhaustive=True, extra=extra)
+
+
 def run(ctx):
     quick = ctx.quick()
     # 1. design check: the reference hierarchy has the C13 properties
@@ -69,6 +84,8 @@ def run(ctx):
                  {"VERIF_N": 48 if quick else 320, "VERIF_STEPS": 60 if quick else 100})
     _validate(ctx, out, "random")
     ctx.cov["samples"] += vlib.sample_lines(out + "/trace.ndjson", 3, maxlen=600)
+    if ctx.violations:
+        return _finish(ctx, extra)  # a violation was found: the later stages cannot change the verdict
 
     # 3. every call from several seed states, and all sequences of two
     #    calls (quick: a seed-dependent quarter of the first calls)
@@ -76,6 +93,8 @@ def run(ctx):
     out2 = _drive(ctx, binary, "TestEnumerate", "enum", env)
     _validate(ctx, out2, "enum")
     extra["enumeration"] = json.load(open(out2 + "/meta.json"))
+    if ctx.violations:
+        return _finish(ctx, extra)
 
     # 4. spec -> code: behaviours generated from the specification are
     #    replayed on the real hierarchy and validated like any other trace
@@ -84,13 +103,7 @@ def run(ctx):
     _validate(ctx, out3, "replay")
     extra["replay"] = json.load(open(out3 + "/meta.json"))
 
-    return vlib.finish(
-        ctx,
-        rule="TLC explores the reference hierarchy VFSDir.tla exhaustively for small universes (kernel-facing calls, bulk calls, case-insensitive names with renames into the own subtree, Listing process with resumable cookie) and checks the C13 invariants and action properties. The real NewInMemoryPrepopulatedDirectory (real pool-backed file allocator, symlink factory, FUSE- and NFS-style handle allocators, both normalizers, hidden-files matcher) is driven by seeded random histories, by an enumeration of all single calls and pairs of calls from four seed states, and by replaying behaviours generated from the specification; every call is logged with status, reply and the projection of all known directories (public interface + state hook); TLC computes the set of outcomes the reference permits and judges status, resulting contents, cookies, change counters, ChangeInfo, listings and link counts.",
-        explanation="reference-model conformance of in_memory_prepopulated_directory.go",
-        exhaustive=True,
-        extra=extra,
-    )
+    return _finish(ctx, extra)
 
 
 def replay(ctx, path):
